@@ -55,6 +55,13 @@ CLAIMS = {
             "The reference models are the specification; they were read off the docstrings and Csirik-Frenk-Labbe-Zhang "
             "(1999).",
             "DESIGN.md 6/C14"),
+    "C20": ("exploration", "property-based testing against re-implemented definitions + bounded-exhaustive enumeration",
+            "Each built-in objective is called directly on generated sum vectors (1-8 sums up to 10^6; list, tuple, int and "
+            "float arrays; k from 1 to len+3; integer and fractional positive weights) in the given order, on the ascending "
+            "copy through the sorted fast path and the slow path, and on the descending copy; every value is compared with "
+            "an independent exact definition. All vectors of <=4 entries over 0..4 are enumerated completely.",
+            "The oracle never calls prtpy; the weighted objective is compared within 1e-12 relative tolerance.",
+            "DESIGN.md 6/C20"),
 }
 
 
